@@ -30,6 +30,7 @@ def _worker(fn_path, items, conn):
         except Exception:  # noqa
             pass
         fn = _resolve(fn_path)
+        _cov = _cov_start()
         for idx, case in items:
             conn.send(("start", idx, None))
             try:
@@ -41,9 +42,44 @@ def _worker(fn_path, items, conn):
                 res = {"driver_error": f"{type(exc).__name__}: {exc}",
                        "tb": traceback.format_exc()[-2000:]}
             conn.send(("done", idx, res))
+        _cov_dump(_cov)
         conn.send(("end", -1, None))
     finally:
         conn.close()
+
+
+def _cov_start():
+    """VERIF_COV=<dir>: record which lines of the library the drivers execute (tools/cov.py reads the
+    dumps; used to find behaviour no check touches, never by a registered command)."""
+    d = os.environ.get("VERIF_COV")
+    if not d:
+        return None
+    import sys
+    import threading
+    seen = set()
+
+    def tracer(frame, event, arg):
+        fn = frame.f_code.co_filename
+        if "/canopen/" not in fn:
+            return None
+        if event == "line" or event == "call":
+            seen.add((fn, frame.f_lineno))
+        return tracer
+    sys.settrace(tracer)
+    threading.settrace(tracer)
+    return d, seen
+
+
+def _cov_dump(cov):
+    if not cov:
+        return
+    import json
+    import sys
+    sys.settrace(None)
+    d, seen = cov
+    os.makedirs(d, exist_ok=True)
+    with open(os.path.join(d, f"{os.getpid()}-{time.time_ns()}.json"), "w") as fh:
+        json.dump(sorted(seen), fh)
 
 
 class DriverError(RuntimeError):
